@@ -697,7 +697,7 @@ def run():
         rs_cases.append({"src": c["src"], "target": c["target"]})
     rs_cases = rs_cases[:len(directed_rs)] + rng.sample(rs_cases[len(directed_rs):], min(len(rs_cases) - len(directed_rs), ck.n(300, 2500)))
     rs_ans = harness("log", [dict(src=c["src"], want=[], msg_prefix="verif:respan", **({"target": c["target"]} if c["target"] else {})) for c in rs_cases])
-    lines = []
+    lines, lines2 = [], []
     for c, a in zip(rs_cases, rs_ans):
         got = []
         for e in a.get("entries") or []:
@@ -710,6 +710,18 @@ def run():
         ck.stat("corr-respan", "lines-per-compile=%d" % min(len(got), 4))
         for d in got:
             lines.append((c, d, a))
+        # v2 of the hook (hooks/respan2.diff, re-entrance guard): `out` is the span of the error that fold_function REALLY returned
+        got2 = []
+        for e in a.get("entries") or []:
+            m = e.get("Message") if isinstance(e, dict) else None
+            if m and m.startswith("verif:respan2 "):
+                got2.append(json.loads(m[len("verif:respan2 "):]))
+        if got2:
+            if [(d["err"], d["call"], d["out"]) for d in got2] != [(d["err"], d["call"], d["out"]) for d in got]:
+                ck.violation("hook verif:respan2 (value really returned by fold_function) disagrees with verif:respan on %r: %s vs %s" % (c["src"], got2, got),
+                             {"src": c["src"], "v2": got2, "v1": got, "kind": "correspondence"})
+            for d in got2:
+                lines2.append((c, d))
     if not lines:
         ck.violation("the hook `verif:respan` (hooks/respan.diff, Resolver::fold_function) produced no line over %d erroneous compiles: "
                      "the tree lacks the hook, so respan_std has no correspondence" % len(rs_cases), {"kind": "hook-missing", "hook": "verif:respan"}, no_input=True)
@@ -737,6 +749,25 @@ def run():
                 ck.violation("Model/Span.v respan_std differs from Resolver::fold_function on error span %s, call span %s: model %s (moves=%s), impl %s (moved=%s)"
                              % (d["err"], d["call"], mo, mm, d["out"], d["moved"]),
                              {"src": c["src"], "err": d["err"], "call": d["call"], "model": mo, "impl": d["out"], "kind": "correspondence"})
+    # v2 lines against the model (the real returned value); absent until hooks/respan2.diff is in the tree
+    ck.coverage["respan2_hook"] = "present" if lines2 else "absent (hooks/respan2.diff not in this tree: only v1 lines + the chain check tie the moving branch)"
+    uniq2 = {}
+    for c, d in lines2:
+        uniq2.setdefault(json.dumps([d["err"], d["call"]]), []).append((c, d))
+    keys2 = list(uniq2)
+    try:
+        vals2 = coq_eval(header, ["flat_sp (respan_std %s %s)" % (coq_sp(e), coq_sp(cl)) for e, cl in (json.loads(k) for k in keys2)])
+    except RuntimeError as ex:
+        vals2 = []
+        ck.coverage["model_eval_error"] = str(ex)[-400:]
+    for k, v in zip(keys2, vals2):
+        mo = None if v == "None" else list(v[1])
+        for c, d in uniq2[k]:
+            ck.count("corr-respan2", json.dumps([c["src"], d["err"], d["call"]]))
+            if mo != d["out"]:
+                ck.stat("corr-respan2", "DISAGREE")
+                ck.violation("Model/Span.v respan_std differs from the span of the error fold_function returned (hook v2) on error span %s, call span %s: model %s, impl %s"
+                             % (d["err"], d["call"], mo, d["out"]), {"src": c["src"], "err": d["err"], "call": d["call"], "model": mo, "impl": d["out"], "kind": "correspondence"})
     # the chain fold_function -> composed: the span of the (single) reported error is what `composed` makes of the span that
     # the outermost fold_function returned (kept when it names the file, removed when it is a span of std.prql)
     for c, a in zip(rs_cases, rs_ans):
